@@ -75,3 +75,28 @@ Lemma discard_on_unparsable_refuted :
   ro_files (snd (rrun par (st, fs) [RFetch 7])) = [(cache_name 7, [123])] /\
   cfetch par st fs 7 = Miss.
 Proof. vm_compute. repeat split; reflexivity. Qed.
+
+(* ---------------------------------------------------------------- the checksum in the file name is UNSIGNED *)
+
+(* '%08X.json' % crc for a crc read as a SIGNED 32-bit number: values with the top bit set print as '-' followed by
+   the hex digits of 2^32 - crc *)
+Definition signed_name (c : Z) : list Z :=
+  if c <? 2 ^ 31 then cache_name c else 45 :: cache_name (2 ^ 32 - c).
+
+(* unsigned reading (HEAD): a table stored under S1 is found when S2 is announced iff S1 = S2, in particular not for
+   the pair (S, 2^32 - S) *)
+Lemma negated_pair_unsigned_is_miss :
+  ends_with (cache_name 1515852049) (cache_name 2779115247) = false /\
+  ends_with (cache_name 2779115247) (cache_name 1515852049) = false.
+Proof. split; reflexivity. Qed.
+
+(* signed reading, refuted: the file stored for S = 0xA5A5EEEF is named '-5A5A1111.json', and the suffix match finds it
+   for the DIFFERENT checksum 2^32 - S = 0x5A5A1111 *)
+Lemma signed_checksum_refuted :
+  2 ^ 32 - 2779115247 = 1515852049 /\
+  ends_with (cache_name 1515852049) (signed_name 2779115247) = true /\
+  signed_name 2779115247 <> cache_name 2779115247.
+Proof.
+  split; [reflexivity|split; [vm_compute; reflexivity|]].
+  unfold not. intros H. vm_compute in H. discriminate.
+Qed.
